@@ -82,7 +82,8 @@ Inductive binop := OAdd | OSub | OMul | ODiv | ORem | OAnd | OOr | OXor | OShl |
 Inductive builtin := BIsspace | BIsdigit | BIsalpha | BIsupper | BIslower | BIsalnum | BIsprint
                    | BTolower | BToupper | BStrlen | BStrchr
                    | BMalloc | BFree | BMemcpy | BMemmove | BMemset
-                   | BStrcmp | BStrncmp | BStrrchr | BStrcpy.     (* sizes in CELLS: the translator divides the byte counts *)
+                   | BStrcmp | BStrncmp | BStrrchr | BStrcpy      (* sizes in CELLS: the translator divides the byte counts *)
+                   | BAtoi.
 
 Definition b2z (b : bool) : Z := if b then 1 else 0.
 Definition chk (t : ity) (z : Z) : res Z :=
@@ -186,8 +187,31 @@ Fixpoint scanlast (blk : list val) (c : Z) (n : nat) (last : option nat) : res (
   | VPtr _ _ :: _ => Err EType
   end.
 
+(* atoi: white space, an optional sign, decimal digits, every cell read checked; a value that int cannot
+   represent is undefined behaviour in C (7.22.1: "if the value of the result cannot be represented, the
+   behavior is undefined"), here the error EOverflow *)
+Fixpoint atoi_digits (blk : list val) (acc : Z) : res Z :=
+  match blk with
+  | [] => Err EOob
+  | VInt z :: r => let c := wrap U8 z in if ct_isdigit c then atoi_digits r (acc * 10 + (c - 48)) else Ok acc
+  | VUndef :: _ => Err EUndef
+  | VPtr _ _ :: _ => Err EType
+  end.
+Fixpoint atoi_cells (blk : list val) : res Z :=
+  match blk with
+  | [] => Err EOob
+  | VInt z :: r => let c := wrap U8 z in
+                   if ct_isspace c then atoi_cells r
+                   else if c =? 45 then (do v <- atoi_digits r 0; Ok (- v))
+                   else if c =? 43 then atoi_digits r 0
+                   else atoi_digits blk 0
+  | VUndef :: _ => Err EUndef
+  | VPtr _ _ :: _ => Err EType
+  end.
+
 Definition do_builtin (f : builtin) (args : list val) (m : mem) : res val :=
   match f, args with
+  | BAtoi, [VPtr b o] => do l <- blk_from m b o; do v <- atoi_cells l; do r <- chk I32 v; Ok (VInt r)
   | BStrcmp, [VPtr b1 o1; VPtr b2 o2] =>
       do l1 <- blk_from m b1 o1; do l2 <- blk_from m b2 o2;
       do r <- cmp_cells l1 l2 (S (Nat.max (length l1) (length l2))); Ok (VInt r)
